@@ -519,10 +519,8 @@ fn call(f: Func, args: &[Node], at: NV) -> R {
                 };
                 return RV::Val(NRef { v: pick, typed: false }, Q::Exact);
             }
-            // means over values beyond 2^53 go through doubles in an order the statements do not fix
-            if vs.iter().any(|v| v.v.f().abs() >= 9007199254740992.0) {
-                return RV::Unspec("U3: aggregate over mixed magnitudes >= 2^53");
-            }
+            // (means of values beyond 2^53 go through doubles: the rounding of an Integer to its double is far inside the
+            // tolerance of a mean, so nothing is excepted here any more)
             let tolz = if q == Q::Exact { Q::Tol(0.0) } else { Q::Skip };
             match f {
                 Min => num(fs.iter().cloned().fold(f64::INFINITY, f64::min), tolz),
@@ -532,10 +530,9 @@ fn call(f: Func, args: &[Node], at: NV) -> R {
                     let sa: f64 = fs.iter().map(|v| v.abs()).sum();
                     let n = fs.len() as f64;
                     if (!s.is_finite() || !sa.is_finite()) && fs.iter().all(|v| v.is_finite()) {
-                        // only the sum overflows: the mean of the scaled terms
-                        let m: f64 = fs.iter().map(|v| v / n).sum();
-                        let ma: f64 = fs.iter().map(|v| (v / n).abs()).sum();
-                        return num(m, if q == Q::Exact && ma.is_finite() { Q::Tol(ma * 1e-14) } else { Q::Skip });
+                        // only the sum overflows: the mean itself always has a finite value
+                        let (m, ma) = crate::rv::mean_scaled(&fs);
+                        return num(m, if q == Q::Exact { Q::Tol(ma * 1e-14) } else { Q::Skip });
                     }
                     num(s / n, if q == Q::Exact { Q::Tol(sa * 1e-15) } else { Q::Skip })
                 }
